@@ -253,6 +253,29 @@ SameValue(a, b) ==
          [] a.t = "other" -> a.name = b.name
          [] OTHER -> FALSE
 
+\* documented exceptions of C10: a timestamp after 2106-02-07 (read back as milliseconds by design),
+\* a table key longer than 128 characters (truncated with a logged warning)
+RECURSIVE Exempt10(_)
+Exempt10(v) ==
+    CASE v.t \in {"dt", "st"} -> LET ep == DtEpoch(v) IN ~ep.neg /\ CmpMag(ep.mag, MaxSeconds32) > 0
+      [] v.t = "table" -> \E i \in 1..Len(v.e) : Len(v.e[i].k) > 128 \/ Exempt10(v.e[i].v)
+      [] v.t = "array" -> \E i \in 1..Len(v.e) : Exempt10(v.e[i])
+      [] OTHER -> FALSE
+
+RECURSIVE KeysAscending(_)
+KeysAscending(v) ==
+    CASE v.t = "table" -> /\ \A i \in 1..(Len(v.e) - 1) : TextLess(v.e[i].k, v.e[i+1].k)
+                          /\ \A i \in 1..Len(v.e) : KeysAscending(v.e[i].v)
+      [] v.t = "array" -> \A i \in 1..Len(v.e) : KeysAscending(v.e[i])
+      [] OTHER -> TRUE
+
+\* a Python dict has unique keys at every level
+RECURSIVE DictShaped(_)
+DictShaped(v) ==
+    CASE v.t = "table" -> UniqueKeys(v.e) /\ \A i \in 1..Len(v.e) : DictShaped(v.e[i].v)
+      [] v.t = "array" -> \A i \in 1..Len(v.e) : DictShaped(v.e[i])
+      [] OTHER -> TRUE
+
 \* the statement's domain of C03: every such value must be accepted
 RECURSIVE Encodable03(_, _)
 Encodable03(v, depth) ==
